@@ -38,7 +38,11 @@ Record case := {
   c_scaled : runobs;
   c_opt : list resobs;                               (* optimizer-domain results of the scaled run *)
   c_eq : option (list Q);                            (* equation scaling held by the scaler after validation *)
-  c_points : list (list Q * list Q * list Q)         (* user point, implementation image, implementation round trip *)
+  c_points : list (list Q * list Q * list Q);        (* user point, implementation image, implementation round trip *)
+  c_fail : option (option cinfo * option cinfo * option cinfo)
+                                                     (* an evaluator step at the start vector whose evaluation fails (no function
+                                                        values): constraint info of the result without transforms, with transforms
+                                                        in the user domain, with transforms in the optimizer domain *)
 }.
 
 (* ---- comparisons ------------------------------------------------------------------------- *)
@@ -202,6 +206,15 @@ Definition check_case (c : case) : bool :=
       && forallb2 (gres_ok S (c_ss c) (c_os c) mB (c_samples c)) (r_user T) (c_opt c)
       (* random user-domain points: image, round trip, differences and feasibility *)
       && forallb (point_ok S ucfg (ccfg_of (r_lb T) (r_ub T) (r_lin T) None) (c_ss c) (c_os c) (c_eq c)) (c_points c)
+      (* a result without function values still reports the bound and linear differences / violations of its point *)
+      && match c_fail c with
+         | Some (ip, iu, io) =>
+             let want := info_of (create ucfg (u_x0 u) None) in
+             info_close S ip want && info_consistent ip
+             && info_close S iu want && info_consistent iu
+             && info_close S iu (match io with Some ci => Some (cinfo_from_opt (Some (c_ss c)) (c_eq c) (c_nls c) ci) | None => None end)
+         | None => true
+         end
   | _, _ => false
   end.
 
